@@ -152,6 +152,7 @@ def main():
             k = known_match(known, prop, task.name, [v.get("what", "")])
             if k:
                 known_hits.append((k, task.name))
+                v["known_finding"] = k["harness"] + "|" + k["check"]
                 continue
             path = write_replay(prop, "smt", dict(v, name=task.name + "_" + v.get("id", "cex")))
             if v.get("reproduced"):
@@ -195,7 +196,12 @@ def main():
             "solver_seconds": round(sum(r["solver_s"] or 0 for r in results) + sum(r.get("solver_s", 0) for r in smt_results), 2),
             "symex_seconds": round(sum(r["symex_s"] or 0 for r in results), 2),
             "build": build,
-            "smt_tasks": [{k: v for k, v in r.items() if k not in ("samples",)} for r in smt_results],
+            # counterexamples that are instances of a listed known finding are counted (and three kept as examples), not listed one by one
+            "smt_tasks": [dict({k: v for k, v in r.items() if k not in ("samples", "violations")},
+                               violations=[v for v in r.get("violations", []) if "known_finding" not in v],
+                               known_finding_counterexamples=sum(1 for v in r.get("violations", []) if "known_finding" in v),
+                               known_finding_examples=[{"what": v.get("what", "")[:600], "reproduced": v.get("reproduced"), "replay_argv": v.get("replay_argv")}
+                                                       for v in r.get("violations", []) if "known_finding" in v][:3]) for r in smt_results],
             "inconclusive": inconclusive,
             "replays": replays,
             "known_findings_hit": [{"key": key, "harness": n, "counterexamples": c} for (key, n), c in sorted(
